@@ -128,10 +128,13 @@ def run(pid, tier, log, scratch):
     for cfg, tables, _ in plan:
         if (cfg, tables) not in built:
             built[(cfg, tables)] = build(cfg, tables, log)
+    # table construction under valgrind is slow: the per-radix table operations use a thinner alphabet
+    def sel(op):
+        return range(len(secs)) if op not in TABLE_OPS else range(min(len(secs), 8))
     jobs = []
     for cfg, tables, ops in plan:
         for op in ops + CONTROLS:
-            for si in range(len(secs)):
+            for si in sel(op):
                 jobs.append((cfg, tables, op, si))
     results = {}
     errors = []
@@ -158,16 +161,16 @@ def run(pid, tier, log, scratch):
     n_instr = 0
     for cfg, tables, ops in plan:
         for op in ops + CONTROLS:
-            hs = [results[(cfg, tables, op, si)] for si in range(len(secs))]
+            hs = [results[(cfg, tables, op, si)] for si in sel(op)]
             n_instr += sum(h[1] for h in hs)
             distinct = sorted(set(h[0] for h in hs))
-            g = {"config": cfg, "tables": tables, "op": op, "secrets": len(secs), "distinct_traces": len(distinct), "instructions": hs[0][1], "loads": hs[0][2], "stores": hs[0][3]}
+            g = {"config": cfg, "tables": tables, "op": op, "secrets": len(hs), "distinct_traces": len(distinct), "instructions": hs[0][1], "loads": hs[0][2], "stores": hs[0][3]}
             groups.append(g)
             if op in CONTROLS:
                 controls_ok[(cfg, tables, op)] = len(distinct) >= 2
                 continue
             if len(distinct) != 1:
-                other = next(si for si in range(len(secs)) if hs[si][0] != hs[0][0])
+                other = next(si for si in range(len(hs)) if hs[si][0] != hs[0][0])
                 div = first_divergence(built[(cfg, tables)], op, spaths[0], spaths[other], scratch)
                 violations.append({
                     "property": pid,
